@@ -165,6 +165,37 @@ func runDriver(env *Env, cases [][]string) ([]string, error) {
 	return lines, nil
 }
 
+// runDriverParallel splits the cases over several driver processes (order preserved).
+func runDriverParallel(env *Env, cases [][]string, workers int) ([]string, error) {
+	if len(cases) < 2*workers {
+		return runDriver(env, cases)
+	}
+	outs := make([]string, len(cases))
+	errs := make([]error, workers)
+	parallelFor(workers, func(w int) {
+		var mine [][]string
+		var idx []int
+		for i := w; i < len(cases); i += workers {
+			mine = append(mine, cases[i])
+			idx = append(idx, i)
+		}
+		o, err := runDriver(env, mine)
+		if err != nil {
+			errs[w] = err
+			return
+		}
+		for k, i := range idx {
+			outs[i] = o[k]
+		}
+	})
+	for _, e := range errs {
+		if e != nil {
+			return outs, e
+		}
+	}
+	return outs, nil
+}
+
 // CorrCase is one correspondence case: the driver fields, the implementation's
 // canonical answer, a human-readable rendering and a coverage class.
 type CorrCase struct {
@@ -180,14 +211,14 @@ func caseKey(fields []string) string {
 }
 
 // compareWithModel runs the model on all cases and records disagreements.
-func compareWithModel(env *Env, res *Result, cases []CorrCase) {
-	compareWithModelX(env, res, cases, false)
+func compareWithModel(env *Env, res *Result, cases []CorrCase) []string {
+	return compareWithModelX(env, res, cases, false)
 }
 
 // compareWithModelAlt: the model may answer "ORDER-DEPENDENT\t<a>\t<b>..." (the set of
 // outcomes over the iteration orders of a Go map); the implementation must be in that set.
-func compareWithModelAlt(env *Env, res *Result, cases []CorrCase) {
-	compareWithModelX(env, res, cases, true)
+func compareWithModelAlt(env *Env, res *Result, cases []CorrCase) []string {
+	return compareWithModelX(env, res, cases, true)
 }
 
 func inAlternatives(model string, impl string) bool {
@@ -201,16 +232,16 @@ func inAlternatives(model string, impl string) bool {
 	return false
 }
 
-func compareWithModelX(env *Env, res *Result, cases []CorrCase, alt bool) {
+func compareWithModelX(env *Env, res *Result, cases []CorrCase, alt bool) []string {
 	fields := make([][]string, len(cases))
 	for i, c := range cases {
 		fields[i] = c.Fields
 	}
-	outs, err := runDriver(env, fields)
+	outs, err := runDriverParallel(env, fields, 8)
 	if err != nil {
 		res.MismatchCount++
 		res.Mismatches = append(res.Mismatches, Mismatch{Human: "driver error", Model: err.Error()})
-		return
+		return nil
 	}
 	distinct := map[string]bool{}
 	for i, c := range cases {
@@ -239,6 +270,7 @@ func compareWithModelX(env *Env, res *Result, cases []CorrCase, alt bool) {
 		}
 	}
 	res.DistinctNontrivial += len(distinct)
+	return outs
 }
 
 func clip(s string, n int) string {
